@@ -18,6 +18,7 @@ func checkC14(c *an.Ctx) {
 	c.Rule("C14.3", "before exactly once per task execution (E10): ExecutionContext.Before has one call site, in the context-resolution function, outside any loop, and that function has one call site, in Run, outside any loop")
 	c.Rule("C14.4", "after on all exits (E3): once the context is resolved and the output created, every exit of Run runs exactly one ExecutionContext.After on that context (deferred), after the task's own after hooks")
 	c.Rule("C14.5", "down (E3/E4): a named context is registered for cleanup before Up is attempted; Finish calls Down on every registered entry; every cmd/taskctl function that runs a task or a pipeline calls Finish on all its exits")
+	c.Rule("C14.7", "run to completion (E4 call graph): every call of the shell interpreter (interp.Runner.Run) in pkg/executor is reached from DefaultExecutor.Execute by synchronous calls only and is itself a plain call — when Execute returns the command is over, so after/down (C14.4, C14.5) cannot overlap a command of the task")
 	c.Rule("C14.6", "hooks outlive cancellation (E5 provenance): the context handed to the executor by the functions under ExecutionContext.Up/Down/Before/After does not derive from the runner's cancellable context (TaskRunner.ctx, context.WithCancel) — otherwise a cancelled run skips after and down, which C14.4/C14.5 promise on every exit")
 	c.NotDecided = append(c.NotDecided, "'immediately before' in time; ordering between different contexts", "down relative to later CLI targets (Finish is per target)", "watch mode never calls Finish (outside the statement's CLI clause: observation)")
 	p := c.P
@@ -29,6 +30,7 @@ func checkC14(c *an.Ctx) {
 
 	onceGuards(c, "C14.1")
 	hookContexts(c, "C14.6")
+	runToCompletion(c, "C14.7")
 
 	// C14.2–C14.4 on the Run trace (every helper of pkg/runner inlined)
 	checkRunTable(c, "C14.2", map[string]bool{"order-context": true, "context-failure": true})
@@ -379,5 +381,37 @@ func hookContexts(c *an.Ctx, rule string) {
 	}
 	if n == 0 {
 		c.Und(rule, "runner.(*ExecutionContext):Execute", token.NoPos, "no executor call under the context hooks")
+	}
+}
+
+// runToCompletion checks C14.7.
+func runToCompletion(c *an.Ctx, rule string) {
+	p := c.P
+	er := resolveExec(p)
+	if er.ex == nil {
+		c.Und(rule, "executor.(*DefaultExecutor).Execute", token.NoPos, "Execute not found")
+		return
+	}
+	n := 0
+	for _, fn := range p.Funcs {
+		if an.Outer(fn).Pkg != er.ex.Pkg {
+			continue
+		}
+		for _, ci := range an.CallsIn(fn, fnInterpRun) {
+			n++
+			key := an.Short(fn) + ":interp.Run"
+			_, plain := ci.(*ssa.Call)
+			switch {
+			case !plain:
+				c.Bad(rule, key, ci.Pos(), "the interpreter is started with go/defer in %s: Execute can return while the command is still running, so the task's after hook and the context's down can run during the command", an.Short(fn))
+			case !er.in[fn]:
+				c.Bad(rule, key, ci.Pos(), "the interpreter runs in %s, which Execute does not reach by synchronous calls (a goroutine is started in between): Execute can return while the command is still running, so the task's after hook and the context's down can run during the command", an.Short(fn))
+			default:
+				c.OK(rule, key, ci.Pos(), "the interpreter runs on Execute's own goroutine")
+			}
+		}
+	}
+	if n == 0 {
+		c.Und(rule, an.Short(er.ex)+":interp.Run", er.ex.Pos(), "pkg/executor never runs the interpreter")
 	}
 }
